@@ -81,6 +81,16 @@ Theorem C12_natural_F_check_is_sound : forall kn F, natural_F_ok kn F = true ->
   (forall m k, (1 <= m)%nat -> (S m < length kn)%nat -> (k < length kn)%nat ->
      hq kn (m - 1) / 6 * F (m - 1)%nat k + (hq kn (m - 1) + hq kn m) / 3 * F m k + hq kn m / 6 * F (S m) k == nat_D kn m k).
 Proof. exact natural_F_ok_sound. Qed.
+(* cyclic splines: the same with indices modulo n; the wrap-around node joins the last and the first interval *)
+Theorem C12_c1_iff_tridiagonal_any_two_intervals : forall ka kb kb' kc ya yb yc ga gb gc, ~ kb - ka == 0 -> ~ kc - kb' == 0 ->
+  (piece_d1 ka kb ya yb ga gb kb == piece_d1 kb' kc yb yc gb gc kb'
+   <-> (kb - ka) / 6 * ga + ((kb - ka) + (kc - kb')) / 3 * gb + (kc - kb') / 6 * gc == (yc - yb) / (kc - kb') - (yb - ya) / (kb - ka)).
+Proof. exact c1_iff_general. Qed.
+Theorem C12_cyclic_F_check_is_sound : forall kn F, cyclic_F_ok kn F = true ->
+  let n := (length kn - 1)%nat in
+  forall m k, (m < n)%nat -> (k < n)%nat ->
+    hq kn (prevn n m) / 6 * F (prevn n m) k + (hq kn (prevn n m) + hq kn m) / 3 * F m k + hq kn m / 6 * F (nextn n m) k == cyc_D kn n m k.
+Proof. exact cyclic_F_ok_sound. Qed.
 (* centering: with c the column means of the training design matrix and Q2 orthogonal to c, every column of M.Q2 has zero mean *)
 Theorem C12_centering_gives_zero_column_means : forall r n (M Q2 : nat -> nat -> Q) j, (0 < r)%nat ->
   let c k := qsum r (fun i => M i k) / inject_Z (Z.of_nat r) in
@@ -109,5 +119,7 @@ Print Assumptions C12_cubic_piece_taylor.
 Print Assumptions C12_cubic_piece_ends.
 Print Assumptions C12_c1_iff_tridiagonal.
 Print Assumptions C12_natural_F_check_is_sound.
+Print Assumptions C12_c1_iff_tridiagonal_any_two_intervals.
+Print Assumptions C12_cyclic_F_check_is_sound.
 Print Assumptions C12_centering_gives_zero_column_means.
 Print Assumptions C12_example.
